@@ -1098,8 +1098,8 @@ Proof.
     - apply auth_pmap_nil. }
   destruct (negb allv); [exact Hs|].
   destruct (pm_get temp (hd_hash hd)) as [hp|] eqn:Hg; [|exact Hs].
-  unfold bind at 1. destruct (byz_majority _) as [maj|] eqn:Hmaj; [|discriminate].
-  destruct (_ <? _) eqn:Hpw; [exact Hs|]. apply N.ltb_ge in Hpw.
+  unfold bind at 1. destruct (byz_majority (sm_avail (v_sum (k_vot s)))) as [maj|] eqn:Hmaj; [|discriminate].
+  destruct (proof_power (vs_pows (hd_vals hd)) hp <? maj) eqn:Hpw; [exact Hs|]. apply N.ltb_ge in Hpw.
   fold (replay_insert s hd (cp_round cp)).
   unfold bind at 1. destruct (replay_insert s hd (cp_round cp)) as [s1|] eqn:Hins; [|discriminate].
   pose proof (replay_checks_good _ _ _ _ (cp_round cp) H Hh Hok Hnext Hb Hprev) as Hgood.
